@@ -185,6 +185,7 @@ def gen_recipe(rng, name: str, want: dict | None = None) -> dict:
         # "unlock_*": the admissible set GROWS with the restricted state (experience unlocks options), so
         # that the numbers of feasible choices per state come in increasing order (1, 2, 3) as well
         filt["dir"] = rng.choice(["high", "high", "low", "unlock_low", "unlock_high"])
+        filt["named_constants"] = rng.random() < 0.5
 
     # a second filter function; together with the first one the model then has filters with
     # mixed period dependence (one takes _period, the other does not)
@@ -458,6 +459,7 @@ def render(recipe: dict) -> tuple[str, dict]:
             add("effort_constraint", ["e", ch], [], [f"return e <= 0.45 + 0.6 * {ch}"])
 
     # ---- filter -------------------------------------------------------------------------
+    header_consts = {}
     filt = recipe["filter"]
     if filt:
         w, l = filt["choice"], filt["state"]
@@ -466,7 +468,16 @@ def render(recipe: dict) -> tuple[str, dict]:
         lhs = w + (f" + {w2}" if w2 else "")
         # threshold 0 for the first label of the state (everything passes), increasing with the
         # state, never above the largest choice (which therefore always passes)
-        thr = f"xp.minimum({l} * {filt.get('step', 1)}, {top})"
+        # the numbers of the rule are literals in the function body, or (as users write thresholds and ages)
+        # module-level constants that the function merely refers to
+        named = bool(filt.get("named_constants"))
+        c_step = "FILTER_STEP" if named else str(filt.get("step", 1))
+        c_from = "FILTER_FROM" if named else str(filt["from_period"])
+        c_gate = "FILTER_GATE" if named else str(filt.get("gate_from"))
+        c_k = "FILTER_K" if named else str(filt.get("K"))
+        if named:
+            header_consts.update({"FILTER_STEP": filt.get("step", 1), "FILTER_FROM": filt["from_period"], "FILTER_GATE": filt.get("gate_from"), "FILTER_K": filt.get("K")})
+        thr = f"xp.minimum({l} * {c_step}, {top})"
         if filt.get("dir", "high") == "low":
             cond = f"{lhs} <= {top} - {thr}"
         elif filt.get("dir") == "unlock_low":
@@ -474,15 +485,15 @@ def render(recipe: dict) -> tuple[str, dict]:
         elif filt.get("dir") == "unlock_high":
             cond = f"{lhs} >= {top} - {thr}"
         else:
-            cond = f"{lhs} >= xp.minimum({l} * {filt.get('step', 1)}, {top})"
+            cond = f"{lhs} >= {thr}"
         fargs = [w] + ([w2] if w2 else []) + [l]
         if filt["kind"] == "lock":
             add("lock_filter", fargs, [], [f"return {cond}"])
         elif filt["kind"] == "pair":
             l2 = filt["state2"]
-            add("lock_filter", [*fargs, l2], [], [f"return xp.logical_and({l} + {l2} <= {filt['K']}, {cond})"])
+            add("lock_filter", [*fargs, l2], [], [f"return xp.logical_and({l} + {l2} <= {c_k}, {cond})"])
         else:
-            add("lock_filter", [*fargs, "_period"], [], [f"return xp.logical_or({cond}, _period >= {filt['from_period']})"])
+            add("lock_filter", [*fargs, "_period"], [], [f"return xp.logical_or({cond}, _period >= {c_from})"])
         if filt.get("gate_from") is not None:
             # the first label of the choice is not available before period gate_from
             # (only in the first label of the restricted state; every filter involves a state)
@@ -490,14 +501,16 @@ def render(recipe: dict) -> tuple[str, dict]:
                 "gate_filter",
                 [w, l, "_period"],
                 [],
-                [f"return xp.logical_or(xp.logical_or({w} >= 1, {l} >= 1), _period >= {filt['gate_from']})"],
+                [f"return xp.logical_or(xp.logical_or({w} >= 1, {l} >= 1), _period >= {c_gate})"],
             )
 
     # ---- declaration order ----------------------------------------------------------------
     names = list(funcs)
     random.Random(recipe["func_shuffle"]).shuffle(names)
 
-    lines = []
+    lines = [f"{k} = {v!r}" for k, v in header_consts.items() if v is not None]
+    if lines:
+        lines.append("")
     for nm in names:
         args, params, body, deco = funcs[nm]
         if deco == "stochastic":
@@ -566,7 +579,7 @@ def build_model(recipe: dict, fns: dict, lcm_mod):
         d = _dchoice(recipe, nm)
         choices[nm] = dgrid(nm, d["n"]) if d else cgrid(_cchoice(recipe, nm))
     return lcm_mod.Model(
-        description=recipe["name"],
+        description=recipe.get("description", recipe["name"]),
         n_periods=recipe["n_periods"],
         functions=dict(fns),
         choices=choices,
@@ -853,6 +866,9 @@ def sibling_recipe(rng, recipe: dict, name: str) -> dict:
         else:
             rules = ["age", "keep", "cycle0"]
         ld["trans"]["rule"] = rng.choice([x for x in rules if x != ld["trans"]["rule"]])
+    # a user who edits a specification usually keeps its description
+    if rng.random() < 0.5:
+        r["description"] = recipe.get("description", recipe["name"])
     r["sibling_of"] = recipe["name"]
     r["sibling_change"] = what
     return r
